@@ -335,8 +335,11 @@ def impl(op: str) -> str:
                                      _text(lambda: repr(n)), _text(wif, raw=True)])
         if k == "subpaths":
             return "ok " + show_list(list(subpaths_for_path_range(h2s(a[1]))), s2h)
-        if k == "bip32_hist":
+        if k in ("bip32_hist", "bip32_hist_fpu"):
             node = mk_node(a[1])
+            if k == "bip32_hist_fpu":
+                node.fingerprint(is_compressed=False)   # asked first: what a child records is the fingerprint of the compressed key
+                node.hash160(is_compressed=False)
             calls = [] if a[2] == "~" else [c.split("/") for c in a[2].split(",")]
             return "ok " + ";".join(item(lambda c=c: node.subkey(i=int(c[0]), is_hardened=c[1] == "1", as_private=opt_bool(c[2])))
                                     for c in calls)
@@ -839,7 +842,7 @@ def oracle(op: str, out: str):
         if want is not None:
             if out != "ok " + show_list(want, s2h):
                 return "range expansion is not the ordered cartesian product"
-    if k == "bip32_hist" and out.startswith("ok "):
+    if k in ("bip32_hist", "bip32_hist_fpu") and out.startswith("ok "):
         calls = [] if a[2] == "~" else a[2].split(",")
         answers = out[3:].split(";") if calls else []
         for c, ans in zip(calls, answers):
@@ -1057,7 +1060,7 @@ def neighbours(op, rng):
         for name in ("btc", "xtn", "ltc"):
             for kind in kinds_of(name):
                 yield "hparse %s %d %s" % (name, kind, a[3])
-    elif a[0] in ("bip32_fam", "bip32_texts", "bip32_hist", "bip32_pathhist", "bip32_subkeys", "bip32_nodepath", "bip32_ser", "hwif"):
+    elif a[0] in ("bip32_fam", "bip32_texts", "bip32_hist", "bip32_hist_fpu", "bip32_pathhist", "bip32_subkeys", "bip32_nodepath", "bip32_ser", "hwif"):
         yield op
 
 
@@ -1289,6 +1292,10 @@ def gen(ctx, emit):
     emit("bip32_hist %s %s" % (node, "0/1/1,0/0/1,0/1/0,0/0/0"))
     emit("bip32_hist %s %s" % (node_pub, "0/0/1,0/0/0,0/0/n,0/1/n,0/0/1"))
     emit("bip32_hist %s ~" % node)
+    for _ in range(ctx.n(4, 60)):
+        calls = [rng.choice(hist_calls) for _ in range(rng.randint(2, 8))]
+        emit("bip32_hist_fpu %s %s" % (rng.choice([node, node_pub, rand_priv_tok()]), ",".join(calls)))
+    emit("bip32_hist_fpu %s %s" % (node, "0/0/n,0/1/0,1/0/n"))
     # --- a FAMILY of objects derived from one root: public copies, shared children, each with its own cache
     fam_fixed = [
         # memoised hardened public child on the private node, then the public copy must still refuse it
